@@ -77,19 +77,26 @@ def c11_cases(tier, seed):
     rng = random.Random(seed)
     sparse, corner, perft, bench, mates = positions()
     gs = games(seed, 60 if tier == 'quick' else 1500, 24)
+    pc = run_harness(['checky', '--seed', seed, '--n', 80 if tier == 'quick' else 2500])
+    checky = [l.strip() for l in pc.stdout.split('\n') if l.strip()]
     cases = []
-    n = 70 if tier == 'quick' else 2500
+    n = 120 if tier == 'quick' else 4000
     while len(cases) < n:
         r = rng.random()
-        if r < 0.30:
+        if r < 0.35 and checky:
+            # sparse positions where checks occur inside a shallow tree (the check extension matters)
+            fen = rng.choice(checky)
+            hist = []
+            depth = rng.choice([2, 2, 3, 3])
+        elif r < 0.50:
             fen = rng.choice(sparse + mates)
             hist = []
             depth = rng.choice([1, 2, 3, 3, 4])
-        elif r < 0.45:
+        elif r < 0.60:
             fen = rng.choice(corner)
             hist = []
             depth = rng.choice([1, 2, 2, 3])
-        elif r < 0.60:
+        elif r < 0.72:
             # clocks near 100: the fifty-move rule cuts inside the tree
             f = rng.choice(sparse + corner).split()
             f[4] = str(rng.choice([95, 96, 97, 98, 99]))
@@ -97,11 +104,11 @@ def c11_cases(tier, seed):
             fen = ' '.join(f)
             hist = []
             depth = rng.choice([2, 3, 4])
-        elif r < 0.75:
+        elif r < 0.82:
             fen = 'startpos'
             hist = list(rng.choice(SHUFFLES))
             depth = rng.choice([1, 2])
-        elif r < 0.9:
+        elif r < 0.93:
             fen, moves = rng.choice(gs)
             hist = moves[:rng.randint(0, len(moves))]
             depth = rng.choice([1, 2, 2])
@@ -116,7 +123,7 @@ def c11_cases(tier, seed):
 def run_c11(tier, seed, verdict, cov):
     d = fresh_dir('c11-%d' % os.getpid())
     cases = c11_cases(tier, seed)
-    cap = 40000 if tier == 'quick' else 200000
+    cap = 60000 if tier == 'quick' else 200000
     parts = max(1, min(NCPU - 2, 12))
     chunks = [cases[i::parts] for i in range(parts)]
 
@@ -148,10 +155,14 @@ def run_c11(tier, seed, verdict, cov):
         p = os.path.join(d, 'trees-%03d.ndjson' % i)
         with open(p, 'w') as fo:
             for t in b:
-                fo.write(open(t).read().strip() + '\n')
+                fo.write(open(t).read())
         files.append((p, b))
     with cf.ThreadPoolExecutor(max_workers=parts) as ex:
         results = list(ex.map(lambda fb: validate_search(fb[0], 'C11', big=True), files))
+
+    def header(path):
+        with open(path) as fh:
+            return json.loads(fh.readline())
     total_nodes = 0
     judged = 0
     samples = []
@@ -165,7 +176,11 @@ def run_c11(tier, seed, verdict, cov):
             cov['traces_validated_against_impl'] = cov.get('traces_validated_against_impl', 0) + 1
             judged += r['nums'][1]
         else:
-            t = json.loads(open(b[r['line'] - 1]).read())
+            with open(p) as fh:
+                for ln, line in enumerate(fh, 1):
+                    if ln == r['line']:
+                        t = json.loads(line)
+                        break
             if 'DUMP-INCOMPLETE' in r['fails']:
                 raise ToolError('tree dump does not cover the look-ahead game of case %s (dumper/spec mismatch)' % t['id'])
             sig = {'kind': 'value-mismatch', 'fen': t['fen'], 'hist': t['hist'], 'depth': t['depth'], 'fails': r['fails']}
@@ -173,7 +188,7 @@ def run_c11(tier, seed, verdict, cov):
                                  'engine_best': t['best'], 'engine_score': t['score'], 'spec_root_value': r.get('want'), 'tree_nodes': t['n']})
     for p, b in files:
         for t in b:
-            j = json.loads(open(t).read())
+            j = header(t)
             total_nodes += j['n']
             if len(samples) < 3:
                 samples.append({k: j[k] for k in ('fen', 'hist', 'depth', 'best', 'score', 'n')})
@@ -201,7 +216,7 @@ def run_c11(tier, seed, verdict, cov):
     # self-test: a wrong score must be rejected
     if not verdict.violations and files:
         p, b = files[-1]
-        lines = open(p).read().strip().split('\n')
+        lines = open(b[-1]).read().strip().split('\n')
         t = json.loads(lines[0])
         t['score'] = t['score'] + 1
         lines[0] = json.dumps(t)
@@ -360,21 +375,28 @@ PRE_THOROUGH = PRE + [[5], [5, 2]]
 
 def run_c12(tier, seed, verdict, cov):
     d = fresh_dir('c12-%d' % os.getpid())
-    npos = 60 if tier == 'quick' else 4000
-    p = run_harness(['mate-cands', '--seed', seed, '--n', npos, '--seeds', os.path.join(ROOT, 'seeds')], timeout=3000)
-    fens = [l.strip() for l in p.stdout.split('\n') if l.strip()]
+    npos = 120 if tier == 'quick' else 4000
+    gparts = max(1, min(NCPU - 2, 12))
+
+    def gen(i):
+        p = run_harness(['mate-cands', '--seed', seed * 100 + i, '--n', (npos + gparts - 1) // gparts, '--seeds', os.path.join(ROOT, 'seeds')], timeout=6000)
+        return [l.strip() for l in p.stdout.split('\n') if l.strip()]
+    with cf.ThreadPoolExecutor(max_workers=gparts) as ex:
+        fens = sorted(set(sum(ex.map(gen, range(gparts)), [])))
     sparse, corner, perft, bench, mates = positions()
     for f in mates:
         q = f.split()
         q[4] = '0'
         fens.append(' '.join(q))
     cases = []
+    QUICK = [([], 3), ([], 4), ([2, 4], 3), ([4], 3), ([3], 3), ([1], 4)]
     for f in fens:
-        for pre in (PRE if tier == 'quick' else PRE_THOROUGH):
-            for depth in (3, 4):
-                if pre == [3] and depth != 3:
-                    continue
-                cases.append({'id': len(cases), 'fen': f, 'pre': pre, 'depth': depth})
+        if tier == 'quick':
+            plan = QUICK
+        else:
+            plan = [(pre, depth) for pre in PRE_THOROUGH for depth in (3, 4) if not (pre == [3] and depth != 3)]
+        for pre, depth in plan:
+            cases.append({'id': len(cases), 'fen': f, 'pre': pre, 'depth': depth})
     parts = max(1, min(NCPU - 2, 12))
     # keep the cases of one position together (facts are computed once per position)
     per = (len(fens) + parts - 1) // parts
